@@ -10,7 +10,11 @@ Init == i \in 1..Len(Trace)
 Next == UNCHANGED i
 Spec == Init /\ [][Next]_i
 T == Trace[i]
-BondLengths == \A k \in 1..Len(T.h) : BondLengthOK(T.p, T.h[k], T.L)
+(* T.L = -1: the parent's element has no tabulated X-H length; the hydrogen then still has to be bonded to it by the
+   program's own X-H criterion (closer than 1.5 A) and must not sit on top of it *)
+BondLengths == \A k \in 1..Len(T.h) :
+                  IF T.L >= 0 THEN BondLengthOK(T.p, T.h[k], T.L)
+                  ELSE SqDist(T.p, T.h[k]) < 1500 * 1500 /\ SqDist(T.p, T.h[k]) >= 500 * 500
 Separation  == \A j, k \in 1..Len(T.h) : j < k => Apart(T.h[j], T.h[k])
 OneParent   == \A k \in 1..Len(T.heavy) : T.heavy[k] = 1
 CountOK     == T.exp >= 0 => Len(T.h) = T.exp
